@@ -53,7 +53,7 @@ type Client struct {
 	sess *wamp.Session
 
 	responseTimeout time.Duration
-	awaitingReply   map[wamp.ID]chan wamp.Message
+	awaitingReply   map[wamp.ID]*replyWaiter
 
 	eventHandlers map[wamp.ID]EventHandler
 	topicSubID    map[string]wamp.ID
@@ -248,7 +248,7 @@ func NewClient(p wamp.Peer, cfg Config) (*Client, error) {
 		sess: sess,
 
 		responseTimeout: cfg.ResponseTimeout,
-		awaitingReply:   map[wamp.ID]chan wamp.Message{},
+		awaitingReply:   map[wamp.ID]*replyWaiter{},
 
 		eventHandlers: map[wamp.ID]EventHandler{},
 		topicSubID:    map[string]wamp.ID{},
@@ -1288,10 +1288,31 @@ func unexpectedMsgError(msg wamp.Message, expected wamp.MessageType) error {
 }
 
 func (c *Client) expectReply(id wamp.ID) {
-	wait := make(chan wamp.Message)
+	wait := &replyWaiter{
+		msgs: make(chan wamp.Message),
+		gone: make(chan struct{}),
+	}
 	c.sess.Lock()
 	c.awaitingReply[id] = wait
 	c.sess.Unlock()
+}
+
+// replyWaiter is where the run() goroutine hands a reply to the goroutine
+// that is waiting for it.
+type replyWaiter struct {
+	msgs chan wamp.Message
+	// gone is closed when the waiting goroutine has stopped reading msgs, so
+	// that run() does not block on a reply that nobody is going to read.
+	gone chan struct{}
+}
+
+// doneWaiting removes the reply waiter for the request ID and releases run()
+// if it is trying to deliver another reply for that request.
+func (c *Client) doneWaiting(id wamp.ID, w *replyWaiter) {
+	c.sess.Lock()
+	delete(c.awaitingReply, id)
+	c.sess.Unlock()
+	close(w.gone)
 }
 
 // waitForReply waits for an expected reply from the router.
@@ -1300,14 +1321,15 @@ func (c *Client) expectReply(id wamp.ID) {
 // run() goroutine may be blocked waiting for a reply to be read from the
 // awaiting reply channel.
 func (c *Client) waitForReply(id wamp.ID) (wamp.Message, error) {
-	var wait chan wamp.Message
+	var w *replyWaiter
 	var ok bool
 	c.sess.Lock()
-	wait, ok = c.awaitingReply[id]
+	w, ok = c.awaitingReply[id]
 	c.sess.Unlock()
 	if !ok {
 		return nil, fmt.Errorf("not expecting reply for ID: %v", id)
 	}
+	wait := w.msgs
 
 	var msg wamp.Message
 	var err error
@@ -1324,9 +1346,7 @@ func (c *Client) waitForReply(id wamp.ID) (wamp.Message, error) {
 	case <-c.Done():
 		err = ErrNotConn
 	}
-	c.sess.Lock()
-	delete(c.awaitingReply, id)
-	c.sess.Unlock()
+	c.doneWaiting(id, w)
 
 	return msg, err
 }
@@ -1338,14 +1358,15 @@ func (c *Client) waitForReply(id wamp.ID) (wamp.Message, error) {
 // run() goroutine may be blocked waiting for a reply to be read from the
 // awaiting reply channel.
 func (c *Client) waitForReplyWithCancel(ctx context.Context, id wamp.ID, procedure string, progChan chan<- *wamp.Result) (wamp.Message, error) { //nolint:lll
-	var wait chan wamp.Message
+	var w *replyWaiter
 	var ok bool
 	c.sess.Lock()
-	wait, ok = c.awaitingReply[id]
+	w, ok = c.awaitingReply[id]
 	c.sess.Unlock()
 	if !ok {
 		return nil, fmt.Errorf("not expecting reply for ID: %v", id)
 	}
+	wait := w.msgs
 
 	var msg wamp.Message
 	var err error
@@ -1400,9 +1421,7 @@ CollectResults:
 		err = ErrNotConn
 	}
 	// All done with this call, so not waiting for more replies.
-	c.sess.Lock()
-	delete(c.awaitingReply, id)
-	c.sess.Unlock()
+	c.doneWaiting(id, w)
 
 	return msg, err
 }
@@ -1913,7 +1932,7 @@ func (c *Client) runHandleInterrupt(msg *wamp.Interrupt) {
 }
 
 func (c *Client) runSignalReply(msg wamp.Message, requestID wamp.ID) {
-	var w chan wamp.Message
+	var w *replyWaiter
 	var ok bool
 	c.sess.Lock()
 	w, ok = c.awaitingReply[requestID]
@@ -1924,7 +1943,10 @@ func (c *Client) runSignalReply(msg wamp.Message, requestID wamp.ID) {
 		return
 	}
 	select {
-	case w <- msg:
+	case w.msgs <- msg:
+	case <-w.gone:
+		c.log.Println("Received", msg.MessageType(), requestID,
+			"that client is no longer waiting for")
 	case <-c.Done():
 	}
 }
